@@ -163,7 +163,9 @@ def mgmt_process(chk: Check, repo: Repo) -> None:
         chk.ob("ack-only-for-own-connection-data", fi.site(), ok, f"tpci={tp} connection={'open' if has_conn else 'none'} number={rel}: acknowledgements sent {sorted(acks)}; reference {sorted(want_ack)}", key=key)
         # dispatch
         rest = {tuple(t for t in g if not t.startswith("SEND_ACK")) for g in got}
-        if has_conn:
+        if tp == "TDataBroadcast":
+            want_rest = {("BROADCAST_QUEUE",)}  # a broadcast goes to the broadcast consumers, also when a connection to its sender is open: it is not a response on that connection
+        elif has_conn:
             want_rest = {("CONNECTION_PROCESS",)}
         elif numbered:
             want_rest = {()}
